@@ -312,11 +312,13 @@ private:
                 std::integral_constant<bool, is_bit_aligned_t::value> // TODO: Simplify after MPL removal
             > neg;
 
-        detail::swap_half_bytes
+        // PBM stores the leftmost pixel in the most significant bit, a gray1 view in the least significant one
+        // (the writer mirrors the bits of every byte as well)
+        detail::mirror_bits
             <
                 typename rh_t::buffer_t,
                 std::integral_constant<bool, is_bit_aligned_t::value> // TODO: Simplify after MPL removal
-            > swhb;
+            > swhb( true );
 
         //Skip scanlines if necessary.
         for( y_t y = 0; y < this->_settings._top_left.y; ++y )
